@@ -4,7 +4,7 @@ package main
 //
 //   itemseq_fns : the bodies of itemsNeedSwapping, ItemsEqual, ItemCollection.Contains, ItemCollection.Equals,
 //       IRIs.Contains and NaturalLanguageValues.Equals, statement by statement and expression by expression, in a
-//       small imperative language (SIf / SReturn / SDeclBool / SSetBool / SDeclType / SFor / SBreak / SOn ... over
+//       small imperative language (SIf / SReturn / SDeclBool / SSetBool / SDeclType / SFor / SForIdx / SDeclBools / SSetIdx / SBreak / SOn ... over
 //       BPred / BTypeIn / BTypeEq / BNumEq / BIriEquals / BCall / BMethod ...).  Calls are resolved through
 //       go/types: a method call carries the static receiver type ("ItemCollection.Equals"), a package-level
 //       predicate its name.  Whatever is outside the language becomes an explicit SUnrec / BUnrec entry with its
@@ -56,6 +56,32 @@ func (c *ieCtx) varName(e ast.Expr) (string, bool) {
 		return "", false // a package-level variable
 	}
 	return id.Name, true
+}
+
+// a local list, or a local pointer to a list dereferenced in place (`*w` in len( *w) / range *w): the interpreter's list
+// values carry the pointer form as a flag that length and iteration do not look at
+func (c *ieCtx) listVar(e ast.Expr) (string, bool) {
+	if st, ok := e.(*ast.StarExpr); ok {
+		if _, isPtr := c.t.pkg.TypesInfo.TypeOf(st.X).(*types.Pointer); isPtr {
+			return c.varName(st.X)
+		}
+		return "", false
+	}
+	return c.varName(e)
+}
+
+// v[j] with v a local []bool and j a local int (the index variable of a range loop)
+func (c *ieCtx) boolIdx(e ast.Expr) (string, string, bool) {
+	ix, ok := e.(*ast.IndexExpr)
+	if !ok {
+		return "", "", false
+	}
+	v, ok1 := c.varName(ix.X)
+	j, ok2 := c.varName(ix.Index)
+	if !ok1 || !ok2 || c.typeStr(ix.X) != "[]bool" || c.typeStr(ix.Index) != "int" {
+		return "", "", false
+	}
+	return v, j, true
 }
 
 func (c *ieCtx) varList(es []ast.Expr) (string, bool) {
@@ -186,7 +212,7 @@ func (c *ieCtx) nexp(e ast.Expr) (string, bool) {
 	case *ast.CallExpr:
 		if id, ok := x.Fun.(*ast.Ident); ok && id.Name == "len" && len(x.Args) == 1 {
 			if _, isBuiltin := c.t.pkg.TypesInfo.Uses[id].(*types.Builtin); isBuiltin {
-				if v, ok := c.varName(x.Args[0]); ok {
+				if v, ok := c.listVar(x.Args[0]); ok {
 					return "(NLen " + coqStr(v) + ")", true
 				}
 			}
@@ -215,6 +241,10 @@ func (c *ieCtx) bexp(e ast.Expr) string {
 		}
 		if v, ok := c.varName(x); ok && c.typeStr(x) == "bool" {
 			return "(BVar " + coqStr(v) + ")"
+		}
+	case *ast.IndexExpr:
+		if v, j, ok := c.boolIdx(x); ok {
+			return "(BIdx " + coqStr(v) + " " + coqStr(j) + ")"
 		}
 	case *ast.UnaryExpr:
 		if x.Op == token.NOT {
@@ -434,6 +464,9 @@ func (c *ieCtx) stmt(s ast.Stmt) []string {
 			}
 			break
 		}
+		if v, j, ok := c.boolIdx(x.Lhs[0]); ok && x.Tok == token.ASSIGN && c.typeStr(x.Rhs[0]) == "bool" {
+			return []string{"(SSetIdx " + coqStr(v) + " " + coqStr(j) + " " + c.bexp(x.Rhs[0]) + ")"}
+		}
 		id, ok := x.Lhs[0].(*ast.Ident)
 		if !ok {
 			break
@@ -441,6 +474,17 @@ func (c *ieCtx) stmt(s ast.Stmt) []string {
 		if x.Tok == token.DEFINE {
 			if d, ok := c.declType(s); ok {
 				return []string{d}
+			}
+			// v := make([]bool, n)
+			if mk, isCall := x.Rhs[0].(*ast.CallExpr); isCall && len(mk.Args) == 2 && c.typeStr(x.Rhs[0]) == "[]bool" {
+				if f, isId := mk.Fun.(*ast.Ident); isId && f.Name == "make" {
+					if _, isBuiltin := c.t.pkg.TypesInfo.Uses[f].(*types.Builtin); isBuiltin {
+						if n, ok := c.nexp(mk.Args[1]); ok && c.declare(id.Name) {
+							return []string{"(SDeclBools " + coqStr(id.Name) + " " + n + ")"}
+						}
+					}
+				}
+				break
 			}
 			if c.typeStr(x.Rhs[0]) == "bool" && c.declare(id.Name) {
 				return []string{"(SDeclBool " + coqStr(id.Name) + " " + c.bexp(x.Rhs[0]) + ")"}
@@ -457,15 +501,36 @@ func (c *ieCtx) stmt(s ast.Stmt) []string {
 			return []string{on}
 		}
 	case *ast.RangeStmt:
-		if x.Tok != token.DEFINE || !isIdent(x.Key, "_") {
+		if x.Tok != token.DEFINE {
 			break
 		}
 		v, ok := x.Value.(*ast.Ident)
 		if !ok {
 			break
 		}
-		coll, ok := c.varName(x.X)
-		if !ok || !c.declare(v.Name) {
+		key, hasKey := x.Key.(*ast.Ident)
+		if !hasKey {
+			break
+		}
+		coll, ok := c.listVar(x.X)
+		if !ok {
+			break
+		}
+		if key.Name != "_" {
+			// for j, v := range coll
+			if !c.declare(key.Name) {
+				break
+			}
+			if !c.declare(v.Name) {
+				delete(c.declared, key.Name)
+				break
+			}
+			body := c.block(x.Body.List)
+			delete(c.declared, v.Name)
+			delete(c.declared, key.Name)
+			return []string{fmt.Sprintf("(SForIdx %s %s %s %s)", coqStr(key.Name), coqStr(v.Name), coqStr(coll), body)}
+		}
+		if !c.declare(v.Name) {
 			break
 		}
 		body := c.block(x.Body.List)
